@@ -445,6 +445,11 @@ impl ShardCtx {
     pub fn report<C: Serialize>(&mut self, kind: &str, case: &C, f: Failure, shrunk_from: Option<Value>) {
         if let Some(k) = self.findings.match_open(self.property, &f) {
             let id = k.id.clone();
+            if std::env::var("VERIF_ALLOW").is_ok() || std::env::var("VERIF_NO_EXCLUDES").is_ok() {
+                // harvesting mode: keep the shrunk case of a known finding as a witness candidate
+                let r = Replay { property: self.property.to_string(), kind: kind.to_string(), case: serde_json::to_value(case).unwrap(), failure: Some(f.clone()), tier: None, seed: Some(self.seed), shard: Some(self.shard), shrunk_from: None, note: Some(format!("matches {id}")) };
+                write_replay(&r);
+            }
             let line = format!("KNOWN-FINDING: property={} {} [{}]", self.property, k.what, k.id);
             self.res.known_lines.insert(line);
             *self.res.known_seen.entry(id).or_default() += 1;
